@@ -48,7 +48,7 @@ CHECKS = {
     'C07': ("Every row sequence up to length 5/4/4/3 (thorough 6/5/5/4) over data, barline, null interpretation, clef row, null data, split, join for 1-3 kern spines (and kern+text exported with "
             "spine_types=['**kern']) plus all <=2 (3) deviations of a backbone score; for each document EVERY range 1<=a<=b<=M, (a,None), (None,b) and eight out-of-range shapes. Oracle: the "
             "full export tiled by its barline rows - data lines of the range byte-identical and in order, opening/closing barline, single-measure exports partition the data lines, "
-            "iteration yields 1..M, ValueError for the out-of-range shapes. Also blank-line variants, long scores (about 30 measures, all 465 ranges), and concurrent / abandoned / nested iterations of the same document.",
+            "iteration yields 1..M, ValueError for the out-of-range shapes. Also all sequences to length 6/5 (7/6) over data row, plain numbered barline and global comment (empty measures between equal barlines, comments next to barlines), blank-line variants, long scores (about 30 measures, all 465 ranges), and concurrent / abandoned / nested iterations of the same document.",
             'Oracle derived from kernpy\'s own full export (C03 decides that export); indifferent to whether an empty leading measure is numbered.', T_PATHS, 'DESIGN.md §3 C07'),
     'C08': ("Every row sequence up to length 6/5/5/4 over data, barline, uniform clef/key/time rows, first-column-only clef/time rows, split, join for 1-2 kern spines (thorough: 3 spines, "
             "kern next to text) x every measure range (15k quick / 755k thorough excerpts). Each excerpt is labelled by the model's state at its first row; in the claimed core "
@@ -63,7 +63,7 @@ CHECKS = {
             T_GRID + ' + ' + T_PATHS, 'DESIGN.md §3 C10'),
     'C13': ("15-88 documents (>=2 spines, >=2 types, split, clef) x every subset of spine ids x every subset of present types x 23 category selections x 6 encodings, each compared "
             "with the composition of the three reference transforms (which commute by construction), plus one explicit-default spelling of an option per case that must be "
-            "string-identical to omitting it. Plus the options-object interface with one ExportOptions instance reused for a smaller document first, and skeletons with a spine terminated early.",
+            "string-identical to omitting it, and one re-spelling of an option value in force (reversed, with a repeated member, other container) that must not change the export. Plus the options-object interface with one ExportOptions instance reused for a smaller document first, and skeletons with a spine terminated early.",
             'Trusted: kv/model.py reference exporter, kv/pitchref.py; leniencies of DESIGN §2.1.',
             'exhaustive enumeration of the option product on a document family against a reference exporter', 'DESIGN.md §3 C13'),
     'C04': ("For every document of a bounded space (all row sequences to depth 3/4 after a clef row, 9-20 header configurations, <=1/2 deviations of a backbone) and each of 8 category "
@@ -78,7 +78,7 @@ CHECKS = {
     'C01': ("Token level: every abstract note of the stated alphabets (9 durations x 2-5 pitches x 8 accidentals x every signifier set of size <=2 from 37 signifiers; rests; chords) in "
             "EVERY written variant (order, slot before/after duration, pitch, accidental, doubling) - each abstract note must have exactly one normal form, and every normal form must be "
             "a fixed point of import-then-export through the plain route, the separator-stripping route and get_kern_from_ekern. Document level: all row sequences to depth 3/4 and all "
-            "<=2 deviations of a backbone, same differential fixed-point oracle.",
+            "<=2 deviations of a backbone, same differential fixed-point oracle. Cell-corpus pass: every cell of C18's corpus plus every barline with the invisibility flag in four small frames - whenever the frame imports without errors the laws must hold (glued strings in **kern columns, '**' cells and the separator characters are outside the domain); staff-change marks written apart from the mark they combine with (a known finding).",
             'Differential oracle, no reference model. Alphabet rules of DESIGN §2.7 (X i j Z only without accidental; W and w never together).',
             'bounded-exhaustive enumeration of written variants and of row sequences with a differential fixed-point oracle', 'DESIGN.md §3 C01'),
     'C06': ("Every enabled row sequence up to depth 3-5 (data, barline, every split, every join, every single termination) for 1-4 spines, and for each resulting document every subset "
@@ -88,7 +88,7 @@ CHECKS = {
             'Trusted: column->spine map of kv/model.py (itself checked against the tree in C02).', T_PATHS, 'DESIGN.md §3 C06'),
     'C17': ("Every enabled row sequence up to depth 3-5 over data, interpretation, field-comment, barline, global-comment rows and every split/join/termination, with and without "
             "pre-header comments; for each document the full listing, 37 single-category filters and a rotating eighth of 143 larger filters are compared with the model's depth-first "
-            "order and documented categories; unique listings, frequencies, encodings listings, comment query (with key / clear) and monophony are derived and compared. The previously checked document stays alive and is queried again after the current one (two documents in one process).",
+            "order and documented categories; unique listings, frequencies, encodings listings, comment query (with every prefix of every key present / clear) and monophony are derived and compared; comment layouts: every sequence of <=2/3 of 15 comment lines before the header, inside the score and after the terminators. The previously checked document stays alive and is queried again after the current one (two documents in one process).",
             'Trusted: kv/model.py depth-first order, kv/alphabet.py documented categories, kv/catref.py closure.', T_PATHS, 'DESIGN.md §3 C17'),
     'C03': ("Every document of a bounded space (all row sequences up to depth 3/4 over data, interpretation, comment, barline, null, split, join, global-comment rows for 9-24 header "
             "configurations; all <=2 (3) edits of a backbone score; every corpus member in every column) is imported and exported in plain and extended form, and the result is "
